@@ -111,6 +111,12 @@ template <class T> struct move_probe
   static unsigned long take() { return 0; }
 };
 
+// hook: number of live heap cells owned by coordinate values (only a heap-backed scalar counts)
+template <class T> struct live_probe
+{
+  static long count() { return 0; }
+};
+
 // built-in integers and integer-like user-defined scalars: index q is the value q
 template <class T> struct coord_int
 {
@@ -1283,6 +1289,165 @@ template <class T, sz N, class C = typename default_coord<T>::type> struct dom
     }
   }
 };
+
+// ---------------------------------------------------------------------- init_max / init_dim with observable callbacks
+// Documentation of both: "Initializes an object of type Box by calling _function for every index. The result
+// must be a tuple where the first element is the min position (position) and the second element is the max
+// position (size)."  So the callback runs once per index -- N invocations, every index exactly once -- and axis
+// i of the box is made of the ONE pair returned for index i.  The order of the indices is not documented and is
+// only counted as information.
+struct boom
+{
+};
+
+template <class T, sz N> struct script_callback
+{
+  struct state
+  {
+    int count = 0;
+    int throw_at = 0; // 1-based invocation that throws, 0 = never
+    std::array<int, 4 * N> index{};
+  };
+  state *st;
+  std::array<std::pair<T, T>, N> const *script;
+  T const *exhausted; // returned when the script has run out
+
+  template <sz I> fcppt::tuple::object<T, T> operator()(fcppt::math::size_constant<I>) const
+  {
+    int const k = st->count++;
+    if (k < static_cast<int>(4 * N))
+      st->index[static_cast<std::size_t>(k)] = static_cast<int>(I);
+    if (st->throw_at != 0 && st->count == st->throw_at)
+      throw boom{};
+    if (k >= static_cast<int>(N)) // stream-like: the k-th invocation gets the k-th pair of the script
+      return fcppt::tuple::make(T(*exhausted), T(*exhausted));
+    auto const &p = (*script)[static_cast<std::size_t>(k)];
+    return fcppt::tuple::make(T(p.first), T(p.second));
+  }
+};
+
+template <class T, sz N, class C = typename default_coord<T>::type> inline void callback_cases()
+{
+  using box = fcppt::math::box::object<T, N>;
+  using cb = script_callback<T, N>;
+  std::string const tag = std::string("<") + tname<T>::v + "," + std::to_string(N) + ">";
+  ll const choice[3] = {-1, 0, 2}; // corner units; values C::to(stride * c)
+  T const exhausted = C::to(C::stride * 3);
+  std::size_t total = 1;
+  for (sz i = 0; i < 2 * N; ++i)
+    total *= 3;
+  for (int which = 0; which < 2; ++which)
+  {
+    bool const is_dim = which == 1;
+    std::string const base = std::string(is_dim ? "init_dim" : "init_max") + tag;
+    char const *n_state = intern(base + ":stateful_callback"), *n_throw = intern(base + ":throwing_callback");
+    auto const run = [is_dim](cb const &f) { return is_dim ? fcppt::math::box::init_dim<box>(f) : fcppt::math::box::init_max<box>(f); };
+    for (std::size_t sc = 0; sc < total; ++sc)
+    {
+      std::array<std::pair<T, T>, N> script;
+      std::string d = "script=(";
+      std::size_t rest = sc;
+      bool distinct = true;
+      for (sz i = 0; i < N; ++i)
+      {
+        ll const a = choice[rest % 3];
+        rest /= 3;
+        ll const b = choice[rest % 3];
+        rest /= 3;
+        script[i] = std::make_pair(C::to(C::stride * a), C::to(C::stride * b));
+        d += (i ? ",(" : "(") + C::show(C::stride * a) + "," + C::show(C::stride * b) + ")";
+        for (sz j = 0; j < i; ++j)
+          if (script[j].first == script[i].first && script[j].second == script[i].second)
+            distinct = false;
+      }
+      d += ")";
+      // (a) count and indices, (b) the box is made of the pair returned for each index
+      if (vrt::begin_text(n_state, d))
+      {
+        vrt::nontrivial(distinct && N > 1);
+        vrt::maybe_sample();
+        typename cb::state st;
+        box const B = run(cb{&st, &script, &exhausted});
+        VRT_CHECK(st.count == static_cast<int>(N), base + ":callback_count", "callback invoked %d times for %d axes", st.count,
+                  int(N));
+        std::array<int, N> inv; // invocation that received index i
+        inv.fill(-1);
+        bool once = true, ascending = true;
+        for (int k = 0; k < st.count && k < static_cast<int>(4 * N); ++k)
+        {
+          int const i = st.index[static_cast<std::size_t>(k)];
+          if (i < 0 || i >= static_cast<int>(N) || inv[static_cast<std::size_t>(i)] != -1)
+            once = false;
+          else
+            inv[static_cast<std::size_t>(i)] = k;
+          if (i != k)
+            ascending = false;
+        }
+        for (int const v : inv)
+          if (v < 0)
+            once = false;
+        VRT_CHECK(once, base + ":callback_indices", "not every index exactly once");
+        if (once && st.count == static_cast<int>(N))
+        {
+          if (!ascending)
+            vrt::count("info:init_callback_order_not_ascending");
+          bool ok = true;
+          for (sz i = 0; i < N; ++i)
+          {
+            auto const &p = script[static_cast<std::size_t>(inv[i])];
+            T const want_max = is_dim ? static_cast<T>(p.first + p.second) : p.second;
+            if (!(B.pos().get_unsafe(i) == p.first && B.max().get_unsafe(i) == want_max))
+              ok = false;
+          }
+          VRT_CHECK(ok, base + ":callback_box", "box %s is not made of the pair returned for each index",
+                    (dom<T, N, C>::raw(B)).c_str());
+        }
+        if (unsigned long const n = move_probe<T>::take())
+          vrt::fail(base + ":read_of_moved_from_scalar", std::to_string(n) + " reads");
+      }
+      // (c) the k-th invocation throws: the exception propagates, no further invocation, nothing leaks
+      for (int k = 1; k <= static_cast<int>(N); ++k)
+      {
+        if (!vrt::begin_text(n_throw, d + " throw_at=" + std::to_string(k)))
+          continue;
+        vrt::nontrivial(k > 1);
+        long const live0 = live_probe<T>::count();
+        typename cb::state st;
+        st.throw_at = k;
+        bool thrown = false;
+        try
+        {
+          box const B = run(cb{&st, &script, &exhausted});
+          (void)B;
+        }
+        catch (boom const &)
+        {
+          thrown = true;
+        }
+        catch (...)
+        {
+          vrt::fail(base + ":callback_exception_replaced", "a different exception arrived");
+          thrown = true;
+        }
+        VRT_CHECK(thrown, base + ":callback_exception_swallowed", "the callback's exception did not propagate");
+        VRT_CHECK(st.count == k, base + ":callback_count_after_throw", "callback invoked %d times, it threw at invocation %d",
+                  st.count, k);
+        VRT_CHECK(live_probe<T>::count() == live0, base + ":callback_throw_leak", "%ld coordinate cells leaked",
+                  live_probe<T>::count() - live0);
+        move_probe<T>::take();
+      }
+    }
+  }
+}
+
+template <class T> inline void reg_callbacks()
+{
+  vrt::shard(std::string("callbacks<") + tname<T>::v + ">", [] {
+    callback_cases<T, 1>();
+    callback_cases<T, 2>();
+    callback_cases<T, 3>();
+  });
+}
 
 // The corner "radius" is chosen inside the shard (the tier is not known while shards are registered):
 // rq in the quick tier, rt in the thorough tier.  Shard names do not depend on the tier.
